@@ -386,3 +386,79 @@ Proof.
   destruct (fhist_run qs' (r ++ s2)) as [ok1 vs1]. destruct (fhist_run qs' r) as [ok2 vs2].
   cbn in *. rewrite IH. reflexivity.
 Qed.
+
+(* ------------------------------------------------------------------ sorting a sorted list, add_fts *)
+Lemma sort_gen_sorted_id {A} (lt : A -> A -> bool) l : StronglySorted (le_of lt) l -> sort_gen lt l = l.
+Proof.
+  induction l as [|x t IH]; intros Hs; [reflexivity|].
+  inversion Hs as [|x' t' Hst Hall]; subst.
+  change (sort_gen lt (x :: t)) with (insert_gen lt x (sort_gen lt t)). rewrite (IH Hst).
+  destruct t as [|y r]; [reflexivity|]. cbn.
+  inversion Hall as [|y' r' Hy _]; subst. unfold le_of in Hy. rewrite Hy. reflexivity.
+Qed.
+(* fts.sort() twice is fts.sort() once; seq.add_fts(new) is the stable position sort of the old list followed by the new features:
+   a permutation of both, and the type-name lookup afterwards obeys C06_get_after_sort on old ++ new *)
+Theorem sort_idempotent_add_fts l fs r :
+  fts_sort [0] false (fts_sort [0] false l) = fts_sort [0] false l /\
+  (build_fts fs = Ok r ->
+   fedit_run l (EAddFts fs) = (true, VNone, fts_sort [0] false (l ++ r)) /\
+   Permutation (snd (fedit_run l (EAddFts fs))) (l ++ r)).
+Proof.
+  split.
+  - change (fts_sort [0] false) with (sort_gen ft_pos_lt).
+    apply sort_gen_sorted_id, sort_gen_sorted; [apply ft_pos_lt_asym|apply ft_pos_lt_nt].
+  - intros H. cbn. rewrite H. split; [reflexivity|]. cbn. apply (sort_gen_perm ft_pos_lt).
+Qed.
+
+(* ------------------------------------------------------------------ the shape of every in-place edit *)
+Lemma list_set_length {A} (l : list A) k x : (k < length l)%nat -> length (list_set l k x) = length l.
+Proof.
+  intros H. unfold list_set. rewrite app_length, firstn_length. cbn [length]. rewrite skipn_length. lia.
+Qed.
+Lemma norm_idx_lt len i k : norm_idx (Z.of_nat len) i = Some k -> (k < len)%nat.
+Proof. unfold norm_idx. destruct (i <? 0) eqn:E; destruct (_ || _) eqn:F; intros [= <-]; lia. Qed.
+(* sort / reverse re-order (a permutation); item assignment, swap, changing the type or the locations of a feature keep the number
+   of features; pop / remove take exactly one feature away unless they raise; insert / append add exactly one; an edit that
+   raises leaves the list as it was *)
+Theorem fedit_shape l e :
+  let r := snd (fedit_run l e) in
+  match e with
+  | ESort _ _ | EReverse => Permutation r l
+  | ESetItem _ _ | ESwap _ _ | ESetType _ _ | ESetLocs _ _ => length r = length l
+  | EPop _ | ERemove _ => r = l \/ S (length r) = length l
+  | EInsert _ _ | EAppend _ => r = l \/ length r = S (length l)
+  | EExtend _ | EAddFts _ => (length l <= length r)%nat
+  | EClear => r = []
+  end.
+Proof.
+  destruct e as [keys reverse| |i f|i f|f|fs|i|i|i t|i ls|i j| |fs]; cbn.
+  - apply fts_sort_keys.
+  - apply Permutation_sym, Permutation_rev.
+  - destruct (build_ft f); [|reflexivity]. destruct (norm_idx _ i) as [k|] eqn:E; [|reflexivity].
+    cbn. apply list_set_length, (norm_idx_lt _ _ _ E).
+  - destruct (build_ft f); [|left; reflexivity]. right. cbn. unfold list_ins.
+    rewrite app_length, firstn_length. cbn [length]. rewrite skipn_length. lia.
+  - destruct (build_ft f); [|left; reflexivity]. right. cbn. rewrite app_length. cbn. lia.
+  - destruct (build_fts fs); cbn; [rewrite app_length|]; lia.
+  - destruct (norm_idx _ i) as [k|] eqn:E; [|left; reflexivity].
+    destruct (nth_error l k) eqn:F; [|left; reflexivity]. right. cbn.
+    apply (list_edit_spec l k f), (norm_idx_lt _ _ _ E).
+  - destruct (norm_idx _ i) as [k|] eqn:E; [|left; reflexivity].
+    destruct (nth_error l k) as [f|] eqn:F; [|left; reflexivity].
+    pose proof (remove_first_spec f l) as H. destruct (remove_first f l) as [r|]; [|left; reflexivity].
+    right. cbn. destruct H as (pre & y & post & -> & -> & _). rewrite !app_length. cbn. lia.
+  - destruct (norm_idx _ i) as [k|] eqn:E; [|reflexivity].
+    destruct (nth_error l k) eqn:F; [|reflexivity]. cbn. apply list_set_length, (norm_idx_lt _ _ _ E).
+  - destruct (build_locs ls) as [ls1|]; [|reflexivity].
+    destruct (norm_idx _ i) as [k|] eqn:E; [|reflexivity].
+    destruct (nth_error l k) eqn:F; [|reflexivity].
+    destruct (mk_loctuple ls1); [|reflexivity]. cbn. apply list_set_length, (norm_idx_lt _ _ _ E).
+  - destruct (norm_idx _ j) as [kj|] eqn:Ej; [|reflexivity].
+    destruct (norm_idx _ i) as [ki|] eqn:Ei; [|reflexivity].
+    destruct (nth_error l kj) eqn:Fj; [|reflexivity]. destruct (nth_error l ki) eqn:Fi; [|reflexivity]. cbn.
+    pose proof (norm_idx_lt _ _ _ Ej). pose proof (norm_idx_lt _ _ _ Ei).
+    rewrite list_set_length; rewrite list_set_length; lia.
+  - reflexivity.
+  - destruct (build_fts fs) as [r|]; cbn; [|lia].
+    rewrite (Permutation_length (sort_gen_perm ft_pos_lt (l ++ r))), app_length. lia.
+Qed.
